@@ -24,6 +24,7 @@ package pkg
 //@   ensures [C04:no-verdict] !jsonTextValid(jsonldText) ==> (result1 != nil && result0 == "")
 
 //@ func ValidateCompiled(compiledRegoPtr *rego.PreparedEvalQuery, jsonldText string, debug bool, eventChan *chan e.Event) (string, error)
+//@   requires compiledRegoPtr != nil
 //@   requires [C04:not-yet] !ldRejected
 //@   ensures [C04:jsonld-rejected-no-verdict] ldRejected ==> (result1 != nil && result0 == "")
 //@   requires [C11:compiled] eventChan != nil ==> (chanClosed == 0 && !evOpen && evNext == 3)
@@ -31,6 +32,7 @@ package pkg
 //@   ensures [C04:no-verdict] !jsonTextValid(jsonldText) ==> (result1 != nil && result0 == "")
 
 //@ func ValidateWithConfiguration(profileText string, jsonldText string, debug bool, eventChan *chan e.Event, validationConfig c.ValidationConfiguration, reportConfig c.ReportConfiguration) (string, error)
+//@   requires validationConfig != nil
 //@   requires [C04:not-yet] !ldRejected
 //@   ensures [C04:jsonld-rejected-no-verdict] ldRejected ==> (result1 != nil && result0 == "")
 //@   requires [C08:not-yet] !opaRejected && !opaEvaluated
@@ -41,6 +43,7 @@ package pkg
 //@   ensures [C09:equivalent-to-precompiled] compileErr(profileText) == nil ==> (result0 == libCompiledReport(compiledQuery(profileText), jsonldText, validationConfig, reportConfig) && result1 == libCompiledReportErr(compiledQuery(profileText), jsonldText, validationConfig, reportConfig))
 
 //@ func ValidateCompiledWithConfiguration(compiledRegoPtr *rego.PreparedEvalQuery, jsonldText string, debug bool, eventChan *chan e.Event, validationConfig c.ValidationConfiguration, reportConfig c.ReportConfiguration) (string, error)
+//@   requires compiledRegoPtr != nil && validationConfig != nil
 //@   requires [C04:not-yet] !ldRejected
 //@   ensures [C04:jsonld-rejected-no-verdict] ldRejected ==> (result1 != nil && result0 == "")
 //@   requires [C11:compiled] eventChan != nil ==> (chanClosed == 0 && !evOpen && evNext == 3)
